@@ -61,19 +61,20 @@ class LP(object):
             t = t + lift(co) * x[v]
         return t
 
-    def feasible(self, x):
+    def feasible(self, x, slack=0):
         cs = []
+        sl = rv(slack)
         for v in self.vars:
             if self.lb[v] is not None:
-                cs.append(x[v] >= lift(self.lb[v]))
+                cs.append(x[v] >= lift(self.lb[v]) - sl)
             if self.ub[v] is not None:
-                cs.append(x[v] <= lift(self.ub[v]))
+                cs.append(x[v] <= lift(self.ub[v]) + sl)
         for (n, co, l, u) in self.rows:
             r = self.lin(co, x)
             if l is not None:
-                cs.append(r >= lift(l))
+                cs.append(r >= lift(l) - sl)
             if u is not None:
-                cs.append(r <= lift(u))
+                cs.append(r <= lift(u) + sl)
         return z3.And(*cs) if cs else z3.BoolVal(True)
 
     def _unbounded(self, c, sgn):
@@ -107,6 +108,10 @@ class LP(object):
         x = self.fresh_point(E, name + ".v")
         feas = self.feasible(x)
         if not E.exists_fork(list(x.values()), feas, name=name + ".oracle_feasible"):
+            if not E.symbolic and E.feasible(self.feasible(x, slack=1e-5)):
+                # numeric replay inside the solver's tolerance band: infeasible by less than 1e-5,
+                # a float solver may legitimately call it feasible - no verdict from this instance
+                raise vsym.Abort("tolerance band: infeasible by less than 1e-5")
             return "infeasible", None, None, None
         sgn = 1 if sense == "max" else -1
         if self._unbounded(c, sgn):
